@@ -313,3 +313,116 @@ func runTornSeekCase(o *hx.Out, f *hx.Flags, k int, kind string, viaPrivate bool
 	}
 	o.Count("conc:torn-seek-cases")
 }
+
+// runBatchAtomCase: is PutChangeSet(puts, stores) one atomic batch on the backend itself?
+// A writer applies batches {A: g} (non-storage map) + {B: g} (storage map) with g = 1, 2, 3 …,
+// directly or through a MemCachedStore (PutChangeSet + Persist); readers on the bare backend read
+// A, then B, then A again. With atomic batches A and B carry the same generation at every
+// instant and generations only grow, so every reader must see gen(A₁) ≤ gen(B) ≤ gen(A₂):
+// a batch written puts-first and torn shows gen(A₁) > gen(B), one written stores-first shows
+// gen(B) > gen(A₂). No legal interleaving breaks the chain (reads are sequential in one goroutine).
+// One more reader does the same through the cache layer, where a flush must not show either.
+func runBatchAtomCase(o *hx.Out, f *hx.Flags, k int, kind string, viaCache bool, batches int) {
+	w, err := newWorld(kind)
+	if err != nil {
+		panic(err)
+	}
+	defer w.close()
+	o.Case(k)
+	be := w.nodes[0].st
+	var mc *storage.MemCachedStore
+	if viaCache {
+		mc = storage.NewMemCachedStore(be)
+	}
+	keyA := []byte{0x01, 0xaa} // chooseMap: mem  (e.g. block / MPT data)
+	keyB := []byte{0x70, 0xbb} // chooseMap: stor (contract storage)
+	enc := func(g uint32) []byte { return []byte{byte(g >> 24), byte(g >> 16), byte(g >> 8), byte(g)} }
+	dec := func(b []byte) int64 {
+		if len(b) != 4 {
+			return -1
+		}
+		return int64(b[0])<<24 | int64(b[1])<<16 | int64(b[2])<<8 | int64(b[3])
+	}
+	apply := func(g uint32) error {
+		puts := map[string][]byte{string(keyA): enc(g)}
+		stores := map[string][]byte{string(keyB): enc(g)}
+		if mc != nil {
+			if err := mc.PutChangeSet(puts, stores); err != nil {
+				return err
+			}
+			_, err := mc.Persist()
+			return err
+		}
+		return be.PutChangeSet(puts, stores)
+	}
+	if err := apply(0); err != nil {
+		o.Fail("persist-error", k, "initial batch: %v", err)
+		return
+	}
+	var fails []concFail
+	var fmu sync.Mutex
+	report := func(format string, a ...any) {
+		fmu.Lock()
+		if len(fails) < 3 {
+			fails = append(fails, concFail{"backend-batch-torn", fmt.Sprintf(format, a...)})
+		}
+		fmu.Unlock()
+	}
+	var reads atomic.Int64
+	stop := make(chan struct{})
+	var wg sync.WaitGroup
+	reader := func(st storage.Store, what string) {
+		defer wg.Done()
+		get := func(key []byte) int64 {
+			v, err := st.Get(key)
+			if err != nil {
+				return -2
+			}
+			return dec(v)
+		}
+		for {
+			select {
+			case <-stop:
+				return
+			default:
+			}
+			a1 := get(keyA)
+			b := get(keyB)
+			a2 := get(keyA)
+			if a1 < 0 || b < 0 || a2 < 0 {
+				report("%s on %s: a key of the committed batches is missing or malformed: A=%d B=%d A=%d (-2: not found)", what, kind, a1, b, a2)
+			} else if a1 > b {
+				report("%s on %s: read A of generation %d, then B of generation %d: half of batch %d (the non-storage map) was visible without the other half", what, kind, a1, b, a1)
+			} else if b > a2 {
+				report("%s on %s: read B of generation %d, then A of generation %d: half of batch %d (the storage map) was visible without the other half", what, kind, b, a2, b)
+			}
+			reads.Add(1)
+		}
+	}
+	for i := 0; i < 4; i++ {
+		wg.Add(1)
+		go reader(be, "backend reader")
+	}
+	if mc != nil {
+		wg.Add(1)
+		go reader(mc, "reader through the cache layer")
+	}
+	for g := 1; g <= batches; g++ {
+		if err := apply(uint32(g)); err != nil {
+			report("PutChangeSet/Persist failed: %v", err)
+			break
+		}
+		if g%16 == 0 {
+			runtime.Gosched()
+		}
+	}
+	close(stop)
+	wg.Wait()
+	for _, fl := range fails {
+		o.Fail(fl.key, k, "%s", fl.msg)
+	}
+	o.Add("atom:batches", batches)
+	o.Add("atom:reads", int(reads.Load()))
+	o.Count(fmt.Sprintf("atom:cases:%s:viaCache=%v", kind, viaCache))
+	o.Seen(fmt.Sprintf("atom%d", k))
+}
